@@ -217,7 +217,7 @@ def no_execution(chk, rng, n):
                 state["on"] = False
             if state["events"]:
                 chk.diverge({"clause": "code-execution-or-io", "event": state["events"][0][0], "form": name}, {"text": text, "events": state["events"][:5]})
-            if outcome == "value" and not (hasattr(r, "magnitude") or hasattr(r, "dimensionality") or isinstance(r, (int, float, F, Decimal))):
+            if outcome == "value" and not (hasattr(r, "magnitude") or hasattr(r, "dimensionality") or hasattr(r, "nominal_value") or isinstance(r, (int, float, F, Decimal))):
                 chk.diverge({"clause": "non-quantity-result", "form": name}, {"text": text, "type": type(r).__name__})
     chk.samples.append({"fuzz_input": inputs[len(FUZZ_SEEDS) + 3]})
     chk.notes["fuzz_inputs"] = len(inputs)
